@@ -168,7 +168,7 @@ def promote(a, b):
         return da
     if da.eq(db):
         return da
-    return U("promote", DtypeS, da, db)
+    return z3.If(da == db, da, U("promote", DtypeS, da, db))
 
 
 def bshape(a, b):
@@ -403,6 +403,9 @@ def aten_getattr(interp, t: ATen, name):
                 if isinstance(x, z3.ExprRef) and x.sort() == DtypeS:
                     dtype = x
             if dtype is None or dtype.eq(t.dtype):
+                return ATen(t.term, t.shape_l, t.dtype, t.kind, storage=t.storage, real=t.real, intval=t.intval)
+            # .to(dtype=d) returns the SAME tensor (no copy) when the dtype already is d, a converted copy otherwise
+            if t.storage.is_input and interp.cx.branch(dtype == t.dtype):
                 return ATen(t.term, t.shape_l, t.dtype, t.kind, storage=t.storage, real=t.real, intval=t.intval)
             return ATen(U("cast", ArrS, t.term, dtype), t.shape_l, dtype, t.kind, real=t.real)
         return _m(to)
